@@ -519,6 +519,10 @@ func Run(t *rapid.T, cfg Config) {
 	}
 	// first block: after it the lowest rollback target exists
 	r.advance(1)
+	for r.dead == "" && r.dumps[r.k.Height] == nil {
+		// the block was dropped (conflicting transitions): the base needs a dump
+		r.advance(1)
+	}
 	r.base = r.k.Height
 	nops := rapid.IntRange(6, 30).Draw(t, "nops")
 	if cfg.Side == CR {
@@ -632,6 +636,9 @@ func (r *run) rollbackEpisode() bool {
 		if err != nil {
 			vk.Report(t, r.cfg.Prop+":rollback:error-within-capacity", fmt.Sprintf("RollbackTo(%d): %v", target, err), r.render())
 			return false
+		}
+		if r.dumps[target] == nil {
+			t.Fatalf("harness: no dump of height %d (base %d)", target, r.base)
 		}
 		clean, ok := r.compare("rollback", target, r.observe(), r.dumps[target])
 		if !ok {
